@@ -15,8 +15,11 @@ import (
 )
 
 func TestMain(m *testing.M) {
+	// lifetimes are elapsed time: the process runs in a zone whose UTC offset changes every seven hours, so any
+	// wall-clock arithmetic on creation stamps is off by an hour across most day-long (and longer) lifetimes
+	time.Local = kit.WobblyZone()
 	kit.Main(m, "C04", "exploration",
-		"rapid state machine over the real SDK with a virtual clock; clock steps concentrated on created+ExpireKeyAfter -/+ 1s of IK and SK and on the revoke-check boundary; long-lived and fresh sessions, every cache layout, 1-2 processes. "+
+		"rapid state machine over the real SDK with a virtual clock, the process's local time zone changing its UTC offset every seven hours; clock steps concentrated on created+ExpireKeyAfter -/+ 1s of IK and SK and on the revoke-check boundary; long-lived and fresh sessions, every cache layout, 1-2 processes. "+
 			"Oracle per successful encrypt at virtual time t: the named IK is in the store and not older than ExpireKeyAfter; every IK row written in the call names an SK that is in the store and unexpired at t; "+
 			"an IK whose SK expired at e is not used once t > e + RevokeCheckInterval (immediately without key caching). One evaluation = one history. "+
 			"Non-trivial = an encrypt after the clock crossed the expiry of the IK or SK used by an earlier record of the same process and partition; distinct = distinct sets of (crossing kind, held/fresh session, cache class) in a history",
